@@ -48,3 +48,17 @@ pub assume_specification<T, S, A, I>[ <HashSet<T, S, A> as Extend<T>>::extend::<
 pub assume_specification<T, S, A>[ <HashSet<T, S, A> as Clone>::clone ](s: &HashSet<T, S, A>) -> (r: HashSet<T, S, A>)
     where T: Clone, S: Clone, A: std::alloc::Allocator + Clone
     ensures r@ == s@;
+// BinaryHeap (vstd has no specification): modelled by the sequence of its elements in an unspecified order; pop removes SOME
+// element (the order of removal -- greatest first -- is not modelled: no contract depends on it)
+#[verifier::external_type_specification] #[verifier::external_body] #[verifier::reject_recursive_types(T)] #[verifier::reject_recursive_types(A)]
+pub struct ExBinaryHeap<T, A: std::alloc::Allocator>(std::collections::BinaryHeap<T, A>);
+pub uninterp spec fn hview<T, A: std::alloc::Allocator>(h: &std::collections::BinaryHeap<T, A>) -> Seq<T>;
+pub assume_specification<T>[ std::collections::BinaryHeap::<T>::new ]() -> (r: std::collections::BinaryHeap<T>)
+    ensures hview(&r) == Seq::<T>::empty();
+pub assume_specification<T: Ord, A: std::alloc::Allocator>[ std::collections::BinaryHeap::<T, A>::push ](h: &mut std::collections::BinaryHeap<T, A>, x: T)
+    ensures hview(final(h)) == hview(old(h)).push(x);
+pub assume_specification<T: Ord, A: std::alloc::Allocator>[ std::collections::BinaryHeap::<T, A>::pop ](h: &mut std::collections::BinaryHeap<T, A>) -> (r: Option<T>)
+    ensures match r {
+        None => hview(old(h)).len() == 0 && hview(final(h)) == hview(old(h)),
+        Some(x) => exists|i: int| 0 <= i < hview(old(h)).len() && hview(old(h))[i] == x && hview(final(h)) == hview(old(h)).remove(i),
+    };
